@@ -45,6 +45,7 @@ pub fn run(toks: &[&str]) -> String {
             let mut rd = BufReader::new(rd);
             wr.write_all(b"OK MPD 0.23.5\n").await.ok();
             let mut seen: Vec<(String, usize)> = Vec::new();
+            let mut session: Vec<String> = Vec::new();     // every line the client wrote, by its first word
             let mut line = String::new();
             let mut idle = false;
             loop {
@@ -54,6 +55,7 @@ pub fn run(toks: &[&str]) -> String {
                     Ok(_) => {}
                 }
                 let l = line.trim_end_matches('\n').to_string();
+                session.push(l.split(' ').next().unwrap_or("").to_string());
                 if l == "idle" {
                     idle = true;
                     continue;
@@ -97,7 +99,7 @@ pub fn run(toks: &[&str]) -> String {
                     wr.write_all(b"ACK [2@0] {} bad request\n").await.ok();
                 }
             }
-            seen
+            (seen, session)
         });
         let connected = Client::connect(client_io).await;
         let (client, _events) = match connected {
@@ -121,8 +123,21 @@ pub fn run(toks: &[&str]) -> String {
                 )
             }
         };
+        if toks.get(5) == Some(&"linger") {
+            // keep the client for a while after the load: it returns to idle, and whatever it still has buffered shows
+            tokio::time::sleep(std::time::Duration::from_millis(350)).await;
+        }
         drop(client);
-        let seen = tokio::time::timeout(std::time::Duration::from_secs(10), server).await.ok().and_then(|r| r.ok()).unwrap_or_default();
+        let (seen, session) = tokio::time::timeout(std::time::Duration::from_secs(10), server).await.ok().and_then(|r| r.ok()).unwrap_or_default();
+        // the session as the server saw it, runs of the same word folded: idle,noidle,readpicture*3,idle
+        let mut folded: Vec<(String, usize)> = Vec::new();
+        for w in session {
+            match folded.last_mut() {
+                Some((last, n)) if *last == w => *n += 1,
+                _ => folded.push((w, 1)),
+            }
+        }
+        let session_txt = folded.iter().map(|(w, n)| if *n == 1 { w.clone() } else { format!("{w}*{n}") }).collect::<Vec<_>>().join(",");
         // the requests: which commands, and were the offsets exactly the multiples of the limit, ascending, each once?
         let art: Vec<&(String, usize)> = seen.iter().filter(|(n, _)| n == "readpicture" || n == "albumart").collect();
         let serving: Vec<usize> = art
@@ -132,6 +147,6 @@ pub fn run(toks: &[&str]) -> String {
             .collect();
         let exact = serving.iter().enumerate().all(|(i, o)| *o == i * limit);
         let first: Vec<String> = art.iter().take(3).map(|(n, o)| format!("{n}@{o}")).collect();
-        format!("{shown} requests={} serving={} offsets_exact={} first={}", art.len(), serving.len(), exact as u8, first.join(","))
+        format!("{shown} requests={} serving={} offsets_exact={} first={} session={}", art.len(), serving.len(), exact as u8, first.join(","), session_txt)
     })
 }
